@@ -279,11 +279,12 @@ Fixpoint write_steps (blocks : list bytes) (flushes : list bool) : list step :=
   | d :: r => SWrite d (hd false flushes) :: write_steps r (tl flushes)
   end.
 
-(* the statement sequence of stor_worker, parametric in the two structural facts of Gen.Dispatch:
-   the items of `async with` (entered in order, exited in reverse) and whether the completion
-   reply follows the outermost async with (w_reply_after_ctx) *)
+(* the statement sequence of stor_worker, parametric in two structural facts: the items of its
+   `async with` by role (Gen.Xfer xf_stor_ctx: "FILE", "STREAM"; entered in order, exited in
+   reverse) and whether the completion reply follows the outermost async with (Gen.Dispatch
+   w_reply_after_ctx) *)
 Definition exit_steps (ctx : list string) : list step :=
-  map (fun c => if String.eqb c "stream" then SCloseStream else SCloseFile) (rev ctx).
+  map (fun c => if String.eqb c "STREAM" then SCloseStream else SCloseFile) (rev ctx).
 
 Definition stor_script (reply_after_ctx : bool) (ctx : list string) (m : mode) (off : nat)
            (blocks : list bytes) (flushes : list bool) : list step :=
@@ -321,19 +322,19 @@ Definition get_stream_cmds (passive verb : string) (off : nat) : list cmdk :=
 Definition list_string_eqb (a b : list string) : bool :=
   (Nat.eqb (List.length a) (List.length b)) && forallb (fun p => String.eqb (fst p) (snd p)) (combine a b).
 
-Definition check_worker (ws : list worker) (name : string) (modes : list string) (ctx : list string) : bool :=
+Definition check_worker (ws : list worker) (name : string) (modes : list string) : bool :=
   match find_worker name ws with
   | None => false
   | Some w =>
       list_string_eqb (w_open_modes w) modes
       && w_reply_after_ctx w && w_detach_first w
-      && match w_ctx w with [c] => list_string_eqb c ctx | _ => false end
+      && match w_ctx w with [c] => Nat.eqb (List.length c) 2 | _ => false end   (* one async with, two items *)
       && list_string_eqb (w_codes w) ["226"%string]
   end.
 
 Definition check_dispatch_facts (ws : list worker) (hs : list handler) (d : dispatcher_facts) : bool :=
-  check_worker ws "stor_worker" expected_stor_modes ["file_out"; "stream"]%string
-  && check_worker ws "retr_worker" expected_retr_modes ["file_in"; "stream"]%string
+  check_worker ws "stor_worker" expected_stor_modes
+  && check_worker ws "retr_worker" expected_retr_modes
   && match find_handler "appe" hs with
      | Some h => match h_delegate h with Some t => String.eqb t "stor" | None => false end
      | None => false
@@ -352,8 +353,15 @@ Definition check_dispatch_facts (ws : list worker) (hs : list handler) (d : disp
   && d_table_literal d.
 
 (* the data-path statements this model was written from (Gen.Xfer, role-normalised) *)
+(* the worker's one `async with` holds exactly the file and the data stream (either order: the
+   reply comes after both have exited) *)
+Definition ctx_roles_ok (ctx : list string) : bool :=
+  Nat.eqb (List.length ctx) 2 && mem_s "FILE" ctx && mem_s "STREAM" ctx.
+
 Definition check_xfer_modes (f : xfer_facts) : bool :=
-  String.eqb (xf_stor_default_mode f) "wb" && String.eqb (xf_appe_mode f) "ab".
+  String.eqb (xf_stor_default_mode f) "wb" && String.eqb (xf_appe_mode f) "ab"
+  && ctx_roles_ok (xf_stor_ctx f)
+  && ctx_roles_ok (xf_retr_ctx f).
 
 Definition check_xfer_shapes (f : xfer_facts) : bool :=
   list_string_eqb (xf_stor_body f)
@@ -467,7 +475,7 @@ Definition run_bytes (fn : Z) (a : sx) : sx :=
       let h1 := if off =? 0 then h0 else h_seek off h0 in
       sx_of_bytes (h_content (stor_loop h1 (byteses_of_sx (nth_sx 3 a))))
   | 8%Z => (* stor_script: reply_after ctx_kind mode off old blocks flushes -> (visible at reply, open at reply, final visible) *)
-      let ctx := (if bool_of_sx (nth_sx 1 a) then ["file_out"; "stream"] else ["stream"; "file_out"])%string in
+      let ctx := (if bool_of_sx (nth_sx 1 a) then ["FILE"; "STREAM"] else ["STREAM"; "FILE"])%string in
       let v := v_run (bytes_of_sx (nth_sx 4 a))
                      (stor_script (bool_of_sx (nth_sx 0 a)) ctx (mode_of_sx (nth_sx 2 a))
                                   (nat_of_sx (nth_sx 3 a)) (byteses_of_sx (nth_sx 5 a))
